@@ -359,24 +359,36 @@ def r6_trusted_set_refreshed(ctx):
     r = ctx.rule("C11-R6", "the cached trusted-device set is refreshed whenever the device log is patched or replaced",
                  floor=2, kind="K3 pairing")
     n = 0
+    cands = []
     for f in ws.fns.values():
-        if f.crate != "sos_server_storage":
-            continue
-        nm = f.meta.get("name")
-        if nm not in ("merge_device", "force_merge_device"):
-            continue
+        if f.crate == "sos_server_storage" and f.meta.get("name") in ("merge_device", "force_merge_device"):
+            cands.append((f, f.meta.get("name"), f.root))
+    # a server storage type that does not override the method runs the trait's
+    # default body: that body is then the one the server executes
+    for tr in ("sos_sync::traits::Merge", "sos_sync::traits::ForceMerge"):
+        tdef = ws.traits.get(tr)
+        for imp in ws.impls_of(tr):
+            if imp.get("crate") != "sos_server_storage":
+                continue
+            have = {it["name"] for it in imp["items"]}
+            for it in (tdef or {}).get("items", []):
+                if it["name"] in ("merge_device", "force_merge_device") and it["name"] not in have and it.get("has_default"):
+                    df = ws.fns.get(it["path"])
+                    if df is not None:
+                        cands.append((df, it["name"], "<%s as %s>::%s (inherited default)" % (imp.get("self_ty"), tr, it["name"])))
+    for f, nm, label in cands:
         body = cfg.code_body(ws, f)
         live = cfg.live_blocks(body)
         names = [cname(t) for _i, t in idioms.real_calls(body, live)]
         if nm in names and not ({"patch_checked", "replace_all_events"} & set(names)):
-            r.ok(f.root + "|delegate", cfg.loc(body), "enum dispatch", work=len(body.blocks))
+            r.ok(label + "|delegate", cfg.loc(body), "enum dispatch", work=len(body.blocks))
             continue
         muts = [i for i, t in idioms.real_calls(body, live) if cname(t) in ("patch_checked", "replace_all_events")]
         if not muts:
             continue
         n += 1
         sets = [i for i, t in idioms.real_calls(body, live) if cname(t) == "set_devices"]
-        k = f.root + "|set_devices"
+        k = label + "|set_devices"
         if not sets:
             r.violation(k, cfg.loc(body), "%s changes the device log but never refreshes the trusted device set: revoked devices stay trusted" % nm, work=len(body.blocks))
             continue
